@@ -115,6 +115,13 @@ class Judge:
             # the exact result (e.g. the zero vector in theta storage) is outside the representable domain
             self.res.count("skip_result_not_representable")
             return True
+        except Exception as ex:
+            # one side of the law is not a usable vector (a field is missing, the class is wrong, ...)
+            self.res.evaluations += 1
+            self.res.violation(f"{self.prop}/law-broken law={law} backend={self.mode.name}",
+                               {"cell": cell, "unusable_result": f"{type(ex).__name__}: {ex}"[:200], **detail})
+            self.res.cell(law, cell, self.mode.name)
+            return False
         err = vec_err(g, e, scale)
         d = dict(detail)
         if err > (MP_VIOLATE if self.mode.mp else F_TOL) * gain:
